@@ -25,7 +25,9 @@ MAXU = {"uint64": 2**64 - 1, "uint32": 2**32 - 1, "uint16": 65535, "uint8": 255,
 FAULT_KINDS = ["native", "user", "reclimit", "abort", "peer"]
 NAMEPOOL = ["f", "g", "helper", "calc", "do_it", "check_owner", "x", "sum_", "mul_add", "get", "set_", "payout", "Z", "a_b", "fn", "transfer", "verify", "inner", "step", "q"]
 INTPOOL = [0, 1, 2, 3, 7, 10, 100, 255, 256, 1000, 65535, 65536, 2**32, 2**32 + 1, 2**63, 2**64 - 1, 123456789, 42]
-BYTEPOOL = ["", "a", "abc", "hello world", "k1", "k2", "\\x00", "x" * 20, "key", "value", "//", "a;b", "A" * 33]
+BYTEPOOL = ["", "a", "abc", "hello world", "k1", "k2", "\\x00", "x" * 20, "key", "value", "//", "a;b", "A" * 33,
+            # the same text in another role elsewhere (method signature, address, template name, hex / base64 text)
+            "add(uint64,uint64)uint64", "f()void", "7ZUECA7HFLZTXENRV24SHLU4AVPUTMTTDUFUBNBD64C73F3UHRTHAIOF6Q", "TMPL_A", "0xdeadbeef", "YQ=="]
 HEXPOOL = ["0x00", "0x61", "0xdeadbeef", "0x" + "ab" * 32, "0x0001"]
 B64POOL = ["YQ==", "aGVsbG8=", "AAAA"]
 ADDRPOOL = ["AAAAAAAAAAAAAAAAAAAAAAAAAAAAAAAAAAAAAAAAAAAAAAAAAAAAY5HFKQ", "7ZUECA7HFLZTXENRV24SHLU4AVPUTMTTDUFUBNBD64C73F3UHRTHAIOF6Q"]
@@ -107,7 +109,7 @@ class RecipeGen:
             if s.get("handler_only"):
                 continue
             if sc.in_sub is None:
-                ok = True
+                ok = not s.get("late")
             else:
                 i = self.cur_sub_index
                 if j < i:
@@ -259,7 +261,7 @@ class RecipeGen:
                 opts.append(("tmpl", 4))
             opts.append(("argb", 1))
             if not leaf:
-                opts += [("concat", 4), ("itob", 2), ("sha", 1)]
+                opts += [("concat", 4), ("itob", 2), ("sha", 1), ("substr", 2)]
                 cs = self.callable_subs(sc, lambda s: s["deco"] == "sub" and s["ret"] == "b")
                 if cs:
                     opts.append((("call", cs), 6))
@@ -301,6 +303,15 @@ class RecipeGen:
                 return ["concat", self.expr(sc, "b", d + 1), self.expr(sc, "b", d + 1)]
             if k == "itob":
                 return ["itob", self.expr(sc, "u", d + 1)]
+            if k == "substr":
+                kind = r.choice(["substring", "substring", "extract", "suffix"])
+                if kind == "extract":
+                    self.need(5)
+                a = r.choice([0, 1, 2, 6])
+                b = a + r.choice([0, 1, 5, 300])
+                if r.random() < 0.7:
+                    return ["substr", kind, self.expr(sc, "b", d + 1), ["int", a], ["int", b]]
+                return ["substr", kind, self.expr(sc, "b", d + 1), self.expr(sc, "u", d + 1), ["int", b]]
             if k == "sha":
                 return ["sha", self.expr(sc, "b", d + 1)]
             if isinstance(k, tuple):
@@ -491,6 +502,9 @@ class RecipeGen:
             return ["log", self.expr(sc, "b", d)]
         if k == "itxn":
             self.need(5)
+            if r.random() < 0.4:
+                self.need(6)
+                return ["itxn_arr", r.choice(["accounts", "apps", "args", "assets"]), self.expr(sc, "u", d + 1)]
             return ["itxn", self.expr(sc, "u", d + 1)]
         if k == "if":
             then = self.block(sc, d + 1)
@@ -813,6 +827,11 @@ class RecipeGen:
         self.subs = self.gen_sub_signatures(nhelp + nmeth, router_methods=nmeth)
         if fault_sub is not None and not fault_on_handler:
             self.subs[r.randrange(len(self.subs))]["fault"] = fault_sub
+        # methods whose subroutine is defined only just before registration: not callable from
+        # expressions that are built when the router is created (bare-call / clear-state actions)
+        late = [k for k in range(nhelp, nhelp + nmeth) if r.random() < 0.5]
+        for k in late:
+            self.subs[k]["late"] = True
         # every helper gets one guaranteed caller: a later helper or a method
         forced: list[list[int]] = [[] for _ in range(nhelp + nmeth)]
         for j in range(nhelp):
@@ -858,11 +877,15 @@ class RecipeGen:
             self.gen_sub_body(base + i, mode)
         if clear_kind == "expr":
             sc = Scope(mode)
-            clear = ["expr", [self.stmt(sc, self.f["max_nest"])]]
+            blk: list = []
+            # the clear-state program reaches some of the helpers the approval program reaches
+            for j in [j for j in range(nhelp) if r.random() < 0.7]:
+                self.force_call(sc, j, blk, False)
+            blk += [self.stmt(sc, self.f["max_nest"]) for _ in range(r.randrange(1, 3))]
+            clear = ["expr", blk]
         # helpers and bare-call handlers exist before the router; a method's subroutine is
         # defined either up front or only just before it is registered (i.e. possibly after an
         # earlier compile of the same router)
-        late = [k for k in range(nhelp, nhelp + nmeth) if r.random() < 0.5]
         steps = [["defsub", k] for k in range(len(self.subs)) if k not in late]
         steps.append(["router_new", {"name": pid, "bare": bare, "clear": clear}])
         first_compilable = None
